@@ -293,6 +293,8 @@ def run(tier):
         for f in r["fires"]:
             fired[f["rule"]] = fired.get(f["rule"], 0) + 1
     rep.extra["rule_firings"] = fired
+    modelled = {"SkipTranspose.nop", "SkipTranspose.merge", "SkipReshape.nop", "SkipReshape.merge", "SkipBroadcastTo.nop", "SkipConcatenate.single", "InlineGraph", "SkipCast"}
+    rep.extra["firings_of_rules_the_specification_does_not_model"] = {k: v for k, v in fired.items() if k not in modelled}
     rep.extra["max_passes"] = max((r["passes"] for r in recs), default=0)
     for r in bad[:20]:
         badf = [f for f in r["fires"]]
